@@ -150,6 +150,31 @@ CHECKS.update({
     ),
 })
 
+CHECKS.update({
+    "C04": dict(
+        category="model_checking",
+        text="The lexer mode automaton of the .g4 (Body / Text / TextEscaped / TextCommandOrHashtag / Hashtag modes, longest match across adjacent characters, the line grammar, the "
+             "listener's TEXT re-joining) is a TLA+ specification; TLC checks for every item sequence up to a length that it meets a position-independent declarative meaning "
+             "(literal text with escapes resolved, expression slots, tags, comments never text, modes back to Body) and GroupKeepsOrder for all option groups with every assignment of "
+             "conditions; every line the automaton judges valid and every group is rendered and run through NewDialogueRunner/Next (Text, Tags, order, Disabled compared), the "
+             "automaton's validity verdict is cross-checked against ANTLR, and random long lines with inline expressions of every type are trace-validated.",
+        design_ref="DESIGN.md section 6 (C04), appendix F",
+        note="23 item classes, all sequences of length <= 3 (quick) / <= 4 (thorough); numbers dyadic in the exact window; no unescaped [ ] (markup is C13's); display of huge / tiny "
+             "doubles (exponent forms) is outside the decided window.",
+        technique="TLA+ lexer-mode automaton vs declarative meaning (TLC) + exhaustive line replay + trace validation",
+    ),
+    "C17": dict(
+        category="model_checking",
+        text="TLC checks that an implementation-shaped pipeline (command-mode lexing with keyword/blank rules, rearrange/split, dispatch) produces exactly the property's declarative "
+             "meaning (word classes -> typed arguments, keyword-prefixed names are ordinary, stop never dispatched, unknown names are errors) for every command of a bounded family; "
+             "every enumerated row in every spacing pattern is run on the real library with raw handlers recording the type of each argument; random longer commands are trace-validated.",
+        design_ref="DESIGN.md section 6 (C17)",
+        note="15 names, 20 word classes / 67 spellings, <= 2 (quick) / 3 (thorough) arguments exhaustively, 6 spacing patterns; text glued to {expr} without whitespace, names equal "
+             "to keywords and arguments after stop are excluded (left open by the property).",
+        technique="TLA+ refinement of the declarative command meaning (TLC) + exhaustive row replay + trace validation",
+    ),
+})
+
 NOT_YET = "check not built yet in this session (work in progress; see DESIGN.md build order)"
 
 
